@@ -335,3 +335,5 @@ def run(chk, tier):
     from props import c19
     chk.guard('C19.s', lambda: c19.rule_released_arguments(chk, prog, tier))    # reads of freed memory make diagnostics (and lookups) depend on allocator state
     chk.guard('C19.t', lambda: c19.rule_token_spellings(chk, prog, tier))
+    from props import c07
+    chk.guard('C07.b', lambda: c07.rule_emitdata(chk, prog, tier))       # every byte of a data definition comes from the initialiser list or is zero: buffers the emitter builds are filled completely before they are printed
